@@ -45,6 +45,7 @@ def one_workload(ctx, idx, memkb, scratch, depth, torn, nest_every):
         # commit of a transaction that touched more pages than the pool holds
         env["VERIF_CRASH_MODE"] = "wide"
         memkb = 64
+        depth = 0   # (recovery of this workload writes ~60 pages; crash points inside it are C20's business, on the other workloads)
     rc, out = vlib.run([vlib.VDRIVE, "crash", "run", wdir, tr, ops, str(memkb)], cwd=ctx.work, env=env, timeout=300)
     if rc != 0:
         raise Inconclusive("crash run failed rc=%d\n%s" % (rc, out[-2000:]))
